@@ -293,10 +293,11 @@ theorem mutable_class_form_default_accepted :
         (inject (.mutableClassForm "a" (.seqAny .list {}) (.list [.int 1])) (plainSrc "X" ["Structure"] []))) = false := by
   decide
 
-/-- finding `fault-accepted:bare-type:pep604-union`: `x = int | str` passes the guard -/
-theorem pep604_union_passes_guard :
+/-- fixed finding `fault-accepted:bare-type:pep604-union` (173578d): `x = int | str` is refused by
+    the guard like `x = list[int]` -/
+theorem fixed_pep604_union_refused :
     (Fault.bareType "x" .union).applies exO W0 (plainSrc "X" ["Structure"] []) = true
-    ∧ isError (defineClass exO W0 (inject (.bareType "x" .union) (plainSrc "X" ["Structure"] []))) = false
+    ∧ isError (defineClass exO W0 (inject (.bareType "x" .union) (plainSrc "X" ["Structure"] []))) = true
     ∧ isError (defineClass exO W0 (inject (.bareType "x" .generic) (plainSrc "X" ["Structure"] []))) = true := by
   decide
 
